@@ -581,5 +581,42 @@ class C20(Monitor):
         return tr.ev[0] == 'reclone' or (self.orig_snap is not None and tr.ev[0] in CALLS)
 
 
+class Twin(Monitor):
+    """two separately decorated functions are independent: a call to the twin returns the twin's own result, is
+    evaluated at most once per key, and leaves the first function's memory, archive, bookkeeping and statistics alone"""
+    def __init__(self, cfg, prop):
+        self.cfg = cfg
+        self.prop = prop
+        self.seen = set()
+
+    def state_key(self):
+        return tuple(sorted(self.seen))
+
+    def step(self, S, tr):
+        if tr.ev[0] != 'tcall':
+            return []
+        cfg = self.cfg
+        out = []
+        if tr.exc is not None:
+            out.append((_sig(cfg, self.prop, 'twin-call-raises', exc=type(tr.exc).__name__), 'calling a second decorated function raised %r' % (tr.exc,)))
+        elif tr.ret != tr.extra['twin_expected']:
+            out.append((_sig(cfg, self.prop, 'twin-wrong-value'),
+                        'second decorated function returned %r for %r, it computes %r (cross-talk with the first function)' % (
+                            tr.ret, S.calls[tr.ev[1]], tr.extra['twin_expected'])))
+        if tr.ev[1] in self.seen and tr.extra.get('twin_evals') and cfg['alg'] == 'inf':
+            out.append((_sig(cfg, self.prop, 'twin-reevaluated'), 'second decorated function (inf_cache) evaluated a key twice'))
+        self.seen.add(tr.ev[1])
+        a, b = snap_full(tr.pre), snap_full(tr.post)
+        if a != b or tr.logdelta:
+            names = ('memory', 'archive', 'parked archive', 'archived flag', 'bookkeeping', 'stats', 'info')
+            diff = [n for n, x, y in zip(names, a, b) if x != y] + (['evaluations'] if tr.logdelta else [])
+            out.append((_sig(cfg, self.prop, 'twin-call-changes-first-function', what=','.join(diff)),
+                        'a call to a second, separately decorated function changed the first function\'s %s' % (diff,)))
+        return out
+
+    def nontrivial(self, S, tr):
+        return tr.ev[0] == 'tcall'
+
+
 MONITORS = {'C01': C01, 'C02': C02, 'C05': C05, 'C06': C06, 'C07': C07, 'C15': C15, 'C16': C16,
             'C18': C18, 'C20': C20}
